@@ -28,6 +28,7 @@ import (
 	"sort"
 	"strings"
 	"sync"
+	"sync/atomic"
 	"testing"
 	"time"
 
@@ -46,6 +47,7 @@ type c21Case struct {
 	BOffers   bool        `json:"b_offers,omitempty"`
 	Closers   []c21Closer `json:"closers"`
 	HandlerMs int         `json:"handler_ms,omitempty"` // A's event handlers take this much fake time
+	MsgMs     int         `json:"msg_ms,omitempty"`     // phase data: B sends to A as well, and A's OnMessage handler takes this much fake time
 	WithMedia bool        `json:"with_media,omitempty"`
 	RecvOnly  bool        `json:"recv_only,omitempty"` // the peer also owns receive-only audio and video transceivers (no sender attached)
 	Busy      bool        `json:"busy,omitempty"`      // another goroutine keeps calling the mutating API on A while it is closed
@@ -66,6 +68,7 @@ func c21Gen(seed uint64, idx, total int, tier string) any {
 	for i := 0; i < n; i++ {
 		c.Closers = append(c.Closers, c21Closer{Graceful: r.Bool(0.55), DelayMs: vfPick(r, []int{0, 0, 0, 1, 2, 10, 50, 300, 1500})})
 	}
+	c.MsgMs = vfPick(r, []int{0, 0, 20, 200, 1500})
 	return c
 }
 
@@ -83,6 +86,9 @@ func c21GenCoop(seed uint64, idx, total int, tier string) any {
 	}
 	if c.HandlerMs > 40 {
 		c.HandlerMs = 40
+	}
+	if c.MsgMs > 40 {
+		c.MsgMs = 40
 	}
 	return c
 }
@@ -183,7 +189,12 @@ func c21Run(t *testing.T, cj []byte, res *vfResult) {
 			nw.Stop()
 			res.SimNs = int64(time.Since(t0))
 		}()
-		b.pc.OnDataChannel(func(*DataChannel) {}) // (without a handler pion closes announced channels)
+		var bdc atomic.Pointer[DataChannel]
+		b.pc.OnDataChannel(func(d *DataChannel) { // (without a handler pion closes announced channels)
+			if d.Label() == "d" {
+				bdc.Store(d)
+			}
+		})
 		// A's handlers: slow, and the connection-state one records what it is told
 		var connSeq []PeerConnectionState
 		nap := func() {
@@ -207,6 +218,9 @@ func c21Run(t *testing.T, cj []byte, res *vfResult) {
 		var track *TrackLocalStaticRTP
 		vfAs("A", func() {
 			dc, err = a.pc.CreateDataChannel("d", nil)
+			if err == nil && c.MsgMs > 0 {
+				dc.OnMessage(func(DataChannelMessage) { time.Sleep(time.Duration(c.MsgMs) * time.Millisecond) })
+			}
 			if err == nil && c.WithMedia {
 				track, _ = NewTrackLocalStaticRTP(RTPCodecCapability{MimeType: MimeTypeVP8, ClockRate: 90000}, "t", "s")
 				sender, _ = a.pc.AddTrack(track)
@@ -305,6 +319,26 @@ func c21Run(t *testing.T, cj []byte, res *vfResult) {
 							_ = track.WriteRTP(&rtpPacketForC21)
 						}
 						time.Sleep(5 * time.Millisecond)
+					}
+				})
+			}()
+		}
+		if c.Phase == "data" && c.MsgMs > 0 {
+			// B sends too: A's read loop is inside the application's OnMessage handler when the close calls come
+			bg.Add(1)
+			go func() {
+				defer bg.Done()
+				vfAs("B", func() {
+					for i := 0; !c.Coop || i < 12; i++ {
+						select {
+						case <-stop:
+							return
+						default:
+						}
+						if d := bdc.Load(); d != nil && d.ReadyState() == DataChannelStateOpen {
+							_ = d.SendText("to-a")
+						}
+						time.Sleep(3 * time.Millisecond)
 					}
 				})
 			}()
